@@ -50,7 +50,7 @@ let parse_tree (s : string) : tree =
 exception Shape of string
 
 (* tree -> Gallina value, directed by the type (struct fields by name) *)
-let rec to_val (t : ty) (tr : tree) : val =
+let rec to_val (t : ty) (tr : tree) : val0 =
   match t, tr with
   | (TUint _ | TCompact), Num s -> VN (n_of_hex s)
   | (TFixed _ | TBytes), Bytes s -> VB (bytes_of_hex s)
@@ -70,7 +70,7 @@ let rec to_val (t : ty) (tr : tree) : val =
      | None -> raise (Shape "enum index"))
   | _ -> raise (Shape "value does not fit the type")
 
-let rec of_val (t : ty) (v : val) : string =
+let rec of_val (t : ty) (v : val0) : string =
   match t, v with
   | (TUint _ | TCompact), VN n -> hex_of_n n
   | (TFixed _ | TBytes), VB b -> "x" ^ hex_of_bytes b
@@ -107,7 +107,7 @@ let block_data_ty : ty =
   TVec (TStruct [ f "Hash" (TFixed (nat_of_int 32)); f "Header" (TOpt header); f "Body" (TOpt body);
                   f "Receipt" (TOpt TBytes); f "MessageQueue" (TOpt TBytes); f "Justification" (TOpt TBytes) ])
 
-let bd_of_val (v : val) : block_data = match v with
+let bd_of_val (v : val0) : block_data = match v with
   | VS [VB h; VO hd; VO bd; VO rc; VO mq; VO js] ->
     let ob = function Some (VB b) -> Some b | None -> None | _ -> raise (Shape "bytes") in
     { bd_hash = h; bd_header = hd;
@@ -115,19 +115,19 @@ let bd_of_val (v : val) : block_data = match v with
                              | None -> None | _ -> raise (Shape "body"));
       bd_receipt = ob rc; bd_mq = ob mq; bd_just = ob js }
   | _ -> raise (Shape "block data")
-let val_of_bd (d : block_data) : val =
+let val_of_bd (d : block_data) : val0 =
   let ob = function Some b -> VO (Some (VB b)) | None -> VO None in
   VS [VB d.bd_hash; VO d.bd_header;
       VO (match d.bd_body with Some l -> Some (VL (List.map (fun b -> VB b) l)) | None -> None);
       ob d.bd_receipt; ob d.bd_mq; ob d.bd_just]
 
-let kind_tag (t : ty) (v : val) = match t, v with
+let kind_tag (t : ty) (v : val0) = match t, v with
   | TEnum cs, VE (i, _) -> (match List.find_opt (fun (j, _) -> j = i) cs with
       | Some (_, (nme, _)) -> "variant-" ^ string_of_bytes nme | None -> "variant-?")
   | _ -> ""
 
 (* digest item kinds present in a header value *)
-let digest_tags (v : val) = match v with
+let digest_tags (v : val0) = match v with
   | VS [_; _; _; _; VL items] ->
     if items = [] then ["digest-empty"] else
     List.sort_uniq compare (List.map (function
